@@ -12,6 +12,7 @@ ap.add_argument("--workers", type=int, default=3)
 ap.add_argument("--props", default="")
 ap.add_argument("--seeds", default="")
 ap.add_argument("--repo", default=os.environ.get("VP_RUN_REPO", "/repo"))
+ap.add_argument("--diagonal", action="store_true", help="run, for each seed, only the check of its own property")
 ap.add_argument("--family", action="store_true", help="run, for each seed, only the checks of the properties that share a unit / stand-in with the seed's property")
 a = ap.parse_args()
 props = [p for p in (a.props.split(",") if a.props else sorted(CFG.PROPS))]
@@ -37,7 +38,7 @@ def work(seed):
         shutil.rmtree(scratch, ignore_errors=True)
         return seed, {"error": "patch does not apply: " + r.stderr[:200]}
     env = dict(os.environ, VERIF_REPO=repo, VERIF_TARGET_DIR=os.path.join(scratch, "target"))
-    for p in (family_of(seed) if a.family else props):
+    for p in ([seed.split('-')[0]] if a.diagonal else family_of(seed) if a.family else props):
         pr = subprocess.run([os.path.join(HERE, "check"), p], capture_output=True, text=True, env=env)
         verdict = "ok" if pr.returncode == 0 else ("violation" if (pr.returncode == 1 and "VIOLATION property=" in pr.stdout) else "no-verdict")
         cex = "no-failing-input-found" not in pr.stdout if verdict == "violation" else None
@@ -50,7 +51,7 @@ with concurrent.futures.ThreadPoolExecutor(max_workers=a.workers) as ex:
     for seed, out in ex.map(work, seeds):
         res[seed] = out
         print(seed, {p: v["verdict"] for p, v in out.items() if isinstance(v, dict) and v.get("verdict") != "ok"} if "error" not in out else out, flush=True)
-json.dump({"note": "verdict of every check run against every seeded change (family mode: only the checks sharing a unit or stand-in with the seed's property); produced by matrix.py on scratch clones", "results": res}, open(os.path.join(HERE, "seeded", "MATRIX.json"), "w"), indent=1)
+json.dump({"note": "verdict of every check run against every seeded change (family mode: only the checks sharing a unit or stand-in with the seed's property); produced by matrix.py on scratch clones", "results": res}, open(os.path.join(HERE, "seeded", "DIAGONAL.json" if a.diagonal else "MATRIX.json"), "w"), indent=1)
 for seed, out in res.items():
     mp = os.path.join(HERE, "seeded", seed, "meta.json")
     if not os.path.exists(mp) or "error" in out:
